@@ -227,8 +227,10 @@ def expand(template_path, repo=REPO):
             out.append(gen_macros(repo))
             i += 1
         elif s.startswith('//@include '):
-            out.append(open(os.path.join(VERIF, s.split(None, 1)[1])).read())
-            i += 1
+            # included files are spliced into the template, so directives inside them are processed too
+            inc = open(os.path.join(VERIF, s.split(None, 1)[1])).read().split('\n')
+            lines[i:i + 1] = inc
+            n = len(lines)
         elif s.startswith('//@expect_fail '):
             meta['expected_fail'].append(s.split(None, 1)[1].strip())
             i += 1
@@ -382,6 +384,9 @@ def _parse_fn_blocks(template_path):
     i = 0
     while i < len(lines):
         st = lines[i].strip()
+        if st.startswith('//@include '):
+            lines[i:i + 1] = open(os.path.join(VERIF, st.split(None, 1)[1])).read().split('\n')
+            continue
         if st.startswith('//@fn '):
             fb = FnBlock(_kv(st[len('//@fn '):]))
             i += 1
@@ -428,7 +433,16 @@ def _emit_shim(a, src, meta):
         sig = re.sub(r'\bfn\s+%s\b' % re.escape(pa['item']), 'fn ' + pa['as'], sig, count=1)
     sig = _apply_rw(sig, fb.sig_rw, 'shim %s::%s (signature)' % (unit, want), meta['rewrites'])
     meta.setdefault('shims', []).append('%s :: %s (contract proved in unit %s)' % (pa['file'], pa['item'], unit))
-    return '#[verifier::external_body] /*SHIM: contract proved in unit %s*/\n%s\n%s\n{ unimplemented!() }' % (unit, sig, '\n'.join(fb.spec))
+    spec = '\n'.join(fb.spec)
+    extra = a.get('requires')
+    if extra:
+        # the composing unit may DEMAND more of its own call sites (an extra precondition is an extra obligation of the
+        # caller, never an assumption)
+        if re.search(r'(?m)^\s*requires\b', spec):
+            spec = re.sub(r'(?m)^(\s*)requires\b', r'\1requires %s,' % extra.replace('\\', '\\\\'), spec, count=1)
+        else:
+            spec = '    requires %s,\n' % extra + spec
+    return '#[verifier::external_body] /*SHIM: contract proved in unit %s*/\n%s\n%s\n{ unimplemented!() }' % (unit, sig, spec)
 
 
 def _requires_only(spec):
